@@ -5,7 +5,7 @@
 # changes alike; never leaves /repo modified.
 set -u
 PATCH=$1; shift
-PROPS=${*:-$(python3 -c "import json;print(' '.join(p['id'] for p in json.load(open('/verif/MANIFEST.json'))['properties']))")}
+PROPS=${*:-$(jq -r '.checks[].property_id' /verif/MANIFEST.json | xargs)}
 if [ -n "$(git -C /repo status --porcelain)" ]; then echo "/repo is not clean"; exit 2; fi
 git -C /repo apply "$PATCH" || { echo "patch does not apply"; exit 2; }
 trap 'git -C /repo checkout -- . ; git -C /repo clean -fdq src' EXIT
